@@ -99,7 +99,7 @@ def run_schedule(c, schedule):
 
 def judge(ctx: Ctx, c, schedule, results, final, trace):
     im = _im()
-    case = dict(c, schedule=schedule)
+    case = dict(c, schedule=schedule, k="schedule")
     gets = {}
     for pi, rs in enumerate(results):
         for (op, r) in rs:
